@@ -118,8 +118,8 @@ func editSites(root *xt.Node) []editSite {
 	return out
 }
 
-var elemOps = []string{"delete", "duplicate", "empty"}
-var attrOps = []string{"delete", "empty", "duplicate"}
+var elemOps = []string{"delete", "duplicate", "empty", "blank-text"}
+var attrOps = []string{"delete", "empty", "duplicate", "blank", "odd-number"}
 
 // edit identifies one structural edit by site index (in editSites order) and operator index.
 type edit struct{ Site, Op int }
@@ -204,6 +204,10 @@ func applyEdits(root *xt.Node, edits ...edit) (*xt.Node, []string) {
 				r.n.Attrs[idx].Val = ""
 			case "duplicate":
 				r.n.Attrs = append(r.n.Attrs, r.n.Attrs[idx])
+			case "blank":
+				r.n.Attrs[idx].Val = " \t\n" // present, but white space only
+			case "odd-number":
+				r.n.Attrs[idx].Val = "-0012.50e+3 " // what a numeric / boolean / date reader may choke on
 			}
 			continue
 		}
@@ -221,6 +225,16 @@ func applyEdits(root *xt.Node, edits ...edit) (*xt.Node, []string) {
 		case "empty":
 			r.n.Kids = nil
 			r.n.Attrs = nil
+		case "blank-text":
+			// the element keeps its attributes and child elements; its character data becomes white space only
+			var kids []*xt.Node
+			for _, k := range r.n.Kids {
+				if !k.IsText {
+					kids = append(kids, k)
+				}
+			}
+			r.n.Kids = kids
+			r.n.Add(xt.T(" \n\t "))
 		}
 	}
 	if rootDeleted {
